@@ -122,6 +122,15 @@ class gre (packet_base):
         self.recursion = (flags & 0x700) >> 8
 
         offset = None
+        need = o
+        if csum_present or route_present: need += 4
+        if key_present: need += 4
+        if seq_present: need += 4
+        if dlen < need:
+            self.msg('warning GRE header truncated: %u of %u bytes'
+                     % (dlen, need))
+            return
+
         if csum_present or route_present:
             self.csum,self.route_offset = struct.unpack("!HH", raw[o:o+4])
             o += 4
@@ -141,6 +150,9 @@ class gre (packet_base):
         if route_present:
             self.routing = []
             while True:
+                if dlen < o + 4:
+                    self.msg('warning GRE routing truncated')
+                    return
                 af,so,sl = struct.unpack("!HBB", raw[o:o+4])
                 o += 4
                 sd = raw[o:o+sl]
